@@ -174,21 +174,28 @@ claim("C19", "other",
       "DESIGN.md 4/C19", "internmodel")
 
 claim("C20", "model_checking",
-      "The step system (one atomic step per source line) is regenerated from the AST of the real "
-      "__new__/__init__ of Dimension, Prefix, Unit, Logarithm and LogarithmicUnit; z3 decides over ALL "
-      "line-level schedules of 2 (quick) / 3 (thorough) threads performing a first-time construction of one "
-      "key whether all threads end with the table's single object; a reachability witness guards against "
-      "vacuity and a schedule found is replayed on real threads stepped line by line through sys.settrace.",
-      "Line granularity (a subset of CPython's preemption points); dict.setdefault and `with lock` taken as "
-      "atomic / mutually exclusive; statements the extractor does not recognise are a harness error; "
-      "free-threaded builds and races in alias on named definitions outside.",
-      "AST-extracted step system + z3 bounded model checking over symbolic schedules", "DESIGN.md 4/C20",
-      "stepbmc")
+      "The step system (one atomic step per traced source line) is regenerated on every run by executing the "
+      "real constructor of Dimension, Prefix, Unit, Logarithm and LogarithmicUnit with its intern table "
+      "replaced by a scripted stand-in and enumerating the table's possible answers by re-execution (every "
+      "trace is one path of the program, whatever helpers, aliases or try/except it is written with); z3 "
+      "decides over ALL line-level schedules of 2 (quick) / 3 (thorough) threads, each on one trace and a "
+      "trace feasible only while the shared table gives the answers it assumed, whether all threads end "
+      "with the table's single object; the AST-derived step system of engine/stepbmc.py is checked too where "
+      "its statement forms apply and must agree; a reachability witness guards against vacuity and a "
+      "schedule found is replayed on real threads stepped line by line through sys.settrace.",
+      "Line granularity (a subset of CPython's preemption points); setdefault of a builtin dict and `with "
+      "lock` taken as atomic / mutually exclusive, setdefault of any other table type split into look-up and "
+      "store; one key per constructor call; table operations without a model (del, pop, iteration) are a "
+      "harness error; free-threaded builds and races in alias on named definitions outside.",
+      "execution-derived step system under a scripted table + z3 bounded model checking over symbolic schedules",
+      "DESIGN.md 2/E4b, 4/C20", "tracebmc")
 
 claim("C08", "model_checking",
-      "The cache machine of conversions.py (which lru_cache'd functions transitively read _ratios/_offsets, "
-      "which caches each writer clears; empty paths are cached, exceptions are not) is read from the AST on "
-      "every run; z3 model-checks ALL histories of declare(i,j,ratio)/query(i,j) within the bound for a query "
+      "The cache machine of conversions.py (which lru_cache'd functions or module-level memo tables "
+      "transitively read _ratios/_offsets, which of them each writer clears -- through helpers too --, whether "
+      "the query path itself stores into the tables; empty paths are cached, exceptions are not) is read from "
+      "the AST on every run; any further cached reader gets a generic stale-row model whose histories are "
+      "concretised on four shapes of units; z3 model-checks ALL histories of declare(i,j,ratio)/query(i,j) within the bound for a query "
       "that answers differently from the same declarations on empty caches; the abstraction 'empty caches = "
       "shortest declared path' is validated against the real in_unit on every declaration graph over 3 units; "
       "a history found is replayed in two fresh subprocesses.",
@@ -218,8 +225,10 @@ claim("C17", "model_checking",
       "character partition sound (no terminal character set splits a class), so two strings with the same "
       "class word lex identically; the real Unit.parse and Quantity.parse then run on one representative of "
       "EVERY class word of length <= 4 (quick) / 6 (thorough); each parse is checked for result type, "
-      "magnitude type, allowed exceptions (ParseError/KeyError), determinism and unchanged registries on "
-      "rejection. AST side conditions: the lexer/driver raise only LarkError subclasses; every callback is "
+      "magnitude type as written, allowed exceptions (ParseError/KeyError), determinism (a result that depends "
+      "on earlier parses is replayed after a minimised history) and unchanged registries on rejection. The "
+      "unit arithmetic inside the term/unit_sequence/unit callbacks is executed symbolically for every "
+      "exponent up to the digit limit with CPython's int->float range check modelled. AST side conditions: the lexer/driver raise only LarkError subclasses; every callback is "
       "fed the terminal it expects; anonymous unit construction writes no name/symbol registry (E2).",
       "Strings longer than the bound are not covered; which registered symbol a SYMBOL token spells is "
       "sampled by extra representatives (m, k, s, 1, K, ohm, micro); Python's int()/float() literal grammars "
